@@ -158,9 +158,12 @@ def main():
                 try: fu.result()
                 except vf.Broken as e: broken_groups[futs[fu]] = str(e)
         if broken_groups:
-            for g, e in broken_groups.items(): print('BROKEN group %s: %s' % (g, e))
-            write_evidence(prop, a.tier, seed, [], time.time()-t0, broken=list(broken_groups.values()))
-            return 2
+            # an instantiation unit that no longer builds takes only its own checks down (they are undecided, exit 2 unless another check reports a violation)
+            for g, e in broken_groups.items(): print('BROKEN group %s: %s' % (g, e[:3000]))
+            checks = [c for c in checks if (c.group, c.config) not in broken_groups]
+            if not checks:
+                write_evidence(prop, a.tier, seed, [], time.time()-t0, broken=list(broken_groups.values()))
+                return 2
         decisions = []
         with cf.ThreadPoolExecutor(max_workers=a.j) as ex:
             futs = [ex.submit(decide, R, c, prop, a.tier, kf, replay_dir) for c in checks]
@@ -179,8 +182,8 @@ def main():
                 print('UNDECIDED %s / %s: %s' % (d.check.id, ob.get('label') or ob['desc'], why))
             if d.verdict == 'broken': print('BROKEN %s: %s' % (d.check.id, d.reason[:1500]))
         if any(d.verdict == 'violation' for d in decisions): rc = 1
-        elif any(d.verdict in ('broken', 'undecided') for d in decisions): rc = 2
-        if not a.noevidence: write_evidence(prop, a.tier, seed, decisions, time.time()-t0)
+        elif broken_groups or any(d.verdict in ('broken', 'undecided') for d in decisions): rc = 2
+        if not a.noevidence: write_evidence(prop, a.tier, seed, decisions, time.time()-t0, broken=list(broken_groups.values()) or None)
         print('%s: %d checks, %d obligations, exit %d, %.1fs' % (prop, len(decisions), sum(len(d.results[0].obligations) for d in decisions), rc, time.time()-t0))
         return rc
     finally:
